@@ -9,7 +9,7 @@ import nodecheck
 from nodecheck import Obs, kv, parse_msg
 
 PROP = "C07"
-MODULES = ["DV.Properties.C07", "DV.Properties.C07Hist", "DV.Properties.C07Out", "DV.Properties.C07One", "DV.Properties.ConfigTie"]
+MODULES = ["DV.Properties.C07", "DV.Properties.C07Hist", "DV.Properties.C07Out", "DV.Properties.C07One", "DV.Properties.ConfigTie", "DV.Properties.C07Ans"]
 KEEP = {"OUT": None}
 
 
